@@ -132,6 +132,9 @@ def run(ctx):
 
     # ---- (i) explicit intermediate states (one worker per block) ---------
     seeds = [rng.randrange(1 << 30) for _ in range(1 if quick else 2)]
+    # the explicit perturbation series the intermediate states are built from
+    # are certified inside Coq (Models/RSPTCheck.v rspt_ok_sound)
+    detspace.certify(ctx, "C03", [("mp", sd) for sd in seeds], max_order)
     import concurrent.futures as cf
     import multiprocessing as mp_
     with cf.ProcessPoolExecutor(max_workers=12,
